@@ -107,3 +107,59 @@ reg(P(
     "Go struct fields and processor list in ascending field-number order (A4) with the smallest covering integer types (C2); size constant and Size() from Message.nbytes() (D5); processor constructors agree positionally with the runtime's New* functions (C4); byte accessors address the field by number and array depth, widen before the left shift and narrow after the right shift, conversion type = leaf type / alias name (D6); shift-pair sign extension exactly for widths narrower than storage (D4); the Go runtime's chunk helpers, loop and extensible processors reach the same normal forms as the specification, hence as Python's (D1, E1, D3, D7, C3, G1).",
     "that generated Go compiles (no Go toolchain in the sandbox).",
 ))
+
+reg(P(
+    "C03", "C standard mode writes/reads the same bytes as the specification and Python",
+    [("A4", {"c", "ast"}), ("CC4", ALL), ("A2", {"c", "common"}), ("CA2", ALL), ("C2", {"generator", "c"}), ("CC2", ALL), ("EC3", ALL), ("CD4", ALL), ("EC1", ALL), ("EC2", ALL), ("D5", {"ast", "c", "common"}), ("C3", {"ast"})],
+    "generator side: descriptor array in ascending field-number order (A4); format_bp_* templates, constructor macros and struct members agree positionally, sizes are sizeof of the same node's C type, the k-th descriptor carries address, type and name of the same field (CC4); dispatch chains cover their domains (A2). Runtime side, both build variants: every flag switch covers the flags its callers can pass and routes them to the right routine (CA2); storage partitions agree with the generator (C2, CC2); extensible processors, prefix coders, cursor advance, encode/decode orientation of the copier calls (EC3); sign extension cases (CD4); bit copier: on all paths x all 64 (si, di): 1 <= c <= n, word loads/stores inside the field's bytes, `=` stores only at di = 0, partial stores masked to c bits (EC1); batch path only for storage-sized integer elements (EC2).",
+    "bit-exactness of the C partial-byte expressions beyond the mask form; byte-for-byte equality with Python; compiler optimisation levels.",
+))
+
+reg(P(
+    "C04", "Optimization mode (-O) changes how, never what, is encoded (C and Go)",
+    [("D1", {"planner"}), ("E1", {"planner"}), ("A4", {"planner", "ast"}), ("A2", {"common"}), ("D2", ALL), ("D4", {"c", "go", "planner"}), ("F5", ALL), ("T1", {"while"})],
+    "the compile-time planner computes (si, fi, shift, mask, r) equal to the specification normal form and advances both cursors by a chunk with 1 <= c <= 8 fitting both bytes (D1, E1 on formatter.py); it walks sorted fields, range(cap), alias -> target with one cursor (A4, A2); each C little-endian, C big-endian and Go item template puts every planner value into the hole with that role, uses `=` only at r == 0, narrows after the right shift and widens before the left shift (D2); sign hooks for every width narrower than storage, decode only (D4); --endian selects le()/be() under #ifndef BP_BIG_ENDIAN / #else / #endif (F5).",
+    "equivalence of byte-pointer and value-shift forms at bit level (rests on the mask argument, stated not mechanised); refusal of extensible schemas is C17.",
+))
+
+reg(P(
+    "C06", "The wire is little-endian whatever the host byte order",
+    [("EC4", ALL), ("CC2", {"c-be"}), ("EC2", {"c-be"}), ("EC1", {"c-be"}), ("EC3", {"c"}), ("D2", {"c-be", "c"}), ("F5", ALL)],
+    "in the -DBP_BIG_ENDIAN AST no pointer to wire or staging bytes is cast to a multi-byte integer pointer (positive control: the little-endian copier has such casts); staging reverses exactly BpBaseTypeStorageSize(nbits) bytes before the copy on encode and after it on decode, through a zeroed 8-byte buffer (EC4); that size partition equals the generator's storage (CC2); the array batch condition is the literal 0 (EC2); the copier's remaining paths satisfy the same obligations (EC1); generated big-endian items use value shifts on the field's unsigned type, never byte pointers (D2); the #else branch holds them (F5).",
+    "that staged bytes equal the little-endian path's bytes for every value; host detection macros.",
+))
+
+reg(P(
+    "C07", "Encoding touches exactly its bytes, and each field exactly its bits",
+    [("D5", ALL), ("E1", ALL), ("D1", ALL), ("EC1", ALL), ("EC2", ALL), ("D2", ALL), ("C2", ALL)],
+    "one source (Message.nbytes(), ceil form) for the size constant in C, Go and Python and for every encode allocation (D5); every chunk is at most the field's remaining bits and fits the byte (E1), every stored chunk is `(...) & mask` with the specification mask (D1, D2); in C unmasked word/byte paths never carry more than the remaining bits and word stores/loads stay inside ceil(n/8) bytes, partial stores are masked (EC1); the batch copy covers exactly nbits * cap bits of storage-sized integers (EC2).",
+    "sanitizer-observable behaviour; out-of-range Python integers beyond the masking argument.",
+))
+
+reg(P(
+    "C10", "Every accepted schema yields code the target toolchains accept (narrow: necessary structural conditions)",
+    [("F2", ALL), ("F1", ALL), ("A2", ALL), ("A1", {"render"}), ("A13", ALL), ("F6", ALL), ("F7", ALL)],
+    "definitions are emitted children first in declaration order for the bound proto (F2); each block class pushes balanced brackets and #if/#endif on every path (F1); rendering raises no internal error: exhaustive dispatch, abstract coverage, render-context and push_string discipline (A2, A1 render part, A13); internal helper-name templates are uniquely decodable (F6); include/import statements name the file the compiler generates (F7).",
+    "whether gcc, g++, CPython or Go accept the output (that needs the output); struct layout equality in C++; reserved words.",
+))
+
+reg(P(
+    "C12", "The wire format depends only on field numbers and resolved types",
+    [("F3", ALL), ("A4", ALL), ("D5", {"ast"}), ("D7", ALL), ("EC3", ALL), ("V1", {"reference"})],
+    "layout-bearing computations (size arithmetic, planner, processor/descriptor constructors) read only number / cap / extensible / type attributes, never names, comments, positions or option values; comment / newline / semicolon actions build nothing (F3); declaration order is erased by sorting on the integer field number at every order-sensitive site (A4); Alias.nbits is the target's and alias processors only delegate in all three runtimes (D5, D7, EC3); the resolved definition object is what a field stores, wherever it was declared (V1).",
+    "byte equality of two compilations; constant-expression evaluation (C13).",
+))
+
+reg(P(
+    "C14", "Every width x bit-offset x signedness combination is bit-exact in every runtime",
+    [("E1", ALL), ("D1", ALL), ("EC1", ALL), ("EC2", ALL), ("C2", ALL), ("CC2", ALL), ("D4", ALL), ("CD4", ALL), ("G1", ALL)],
+    "the obligations are parametric in (n, si, di), which is this property's space: chunk bounds for Python/Go/planner (E1) and the chunk plan (D1); the C copier's obligations on every path for all 64 (si, di) pairs and every n in the path's interval, both build variants (EC1); batch predicate (EC2); storage partitions (C2, CC2); sign extension sites incl. bp.intN thresholds and the C cases (D4, CD4).",
+    "bit-exactness of the C partial-byte expressions beyond their mask form.",
+))
+
+reg(P(
+    "C16", "JSON output is valid JSON that states the message's values",
+    [("CJ", ALL), ("CC2", {"c"}), ("CA2", ALL), ("A4", {"c", "py", "ast"}), ("CC4", {"template"}), ("C8", ALL), ("D6", {"py"})],
+    "C: object/array wrapping, \"name\": keys from the field descriptors, separator iff another item follows, bool words with the right polarity, bytes as unsigned numbers, append discipline (CJ); per-width cast classes equal the storage and the conversion letter matches signedness (CC2); the JSON switches cover their domains (CA2); descriptor order = field-number order with the same field's name (A4, CC4). Python: every type a generated field can have is serialisable by to_json, to_dict filters the enum proxy attributes through the generated dict_factory, dataclass fields in field-number order (C8, A4, D6).",
+    "equality of printed values; printf length modifiers (platform dependent, not judged).",
+))
